@@ -754,7 +754,22 @@ def m_min(ex, args, pc):
     return [([], mk_int("(ite (<= %s %s) %s %s)" % (a[1], b[1], a[1], b[1]), a[2], a[3]))]
 
 
+def m_max(ex, args, pc):
+    a, b = args
+    return [([], mk_int("(ite (>= %s %s) %s %s)" % (a[1], b[1], a[1], b[1]), a[2], a[3]))]
+
+
+def m_checked_div(ex, args, pc):
+    a, b = args
+    return [(["(= %s 0)" % b[1]], ("adt", "Option", 0, {})),
+            (["(not (= %s 0))" % b[1]], ("adt", "Option", 1, {0: mk_int("(div %s %s)" % (a[1], b[1]), a[2], a[3])}))]
+
+
 MODELS = {
+    r"<[iu]\w+ as Ord>::max$": m_max,
+    r"(std|core)::cmp::(Ord::)?max(::<\w+>)?$": m_max,
+    r"<[iu]\w+ as Ord>::min$": m_min,
+    r"core::num::<impl u\w+>::checked_div$": m_checked_div,
     r"core::num::<impl u\w+>::wrapping_mul$": m_wrapping_mul,
     r"core::num::<impl u\w+>::wrapping_add$": m_wrapping_add,
     r"core::num::<impl u\w+>::saturating_mul$": m_saturating_mul,
